@@ -3,6 +3,7 @@ from checks.common import Ctx
 from sa.report import Check
 from sa.rules import dep_rules as DRX
 from sa.rules import unordered as U
+from sa.rules import synth_rules as SY
 
 
 def main(tier):
@@ -25,6 +26,8 @@ def main(tier):
     chk.run("R-UNORDERED", U.unordered, cx.repo, floor=12, control=lambda: ctl)
     chk.run("R-GLOBALSTATE", U.globalstate, cx.repo, floor=8, control=lambda: ctl)
     chk.run("R-IMPURE", U.impure, cx.repo, floor=30, control=lambda: ctl)
+    chk.run("R-SKELMUT", SY.skelmut, cx.repo, floor=5)
+    chk.run("R-MUTDEFAULT", U.mutdefault, cx.repo, floor=300, control=lambda: U.control_mutdefault(cx.repo))
     if tier == "thorough":
         # whole repository (tooling scripts, generators) as a cross-reference; findings outside the
         # compile path are notes, not violations
@@ -37,4 +40,5 @@ def main(tier):
         extra.findings = []
         chk.results.append(extra)
     chk.run("R-TARJAN", DRX.tarjan, cx.repo, floor=3, order_only=True)
+    chk.run("R-NATSORT", DRX.natsort, cx.repo, floor=3)
     return chk.finish()
